@@ -10,6 +10,10 @@
 //     the logic of the executor is what is observed.
 // One scenario per input line, one output line per scenario:
 //   R k=v ... | T tid:kind:a:b:c ... | X id:api:rc:sched:exec:disc:callst:retst:runst:donest ...
+// api digit of a task (apis= / mix): 0 schedule, 1 iwstw_schedule_only, 2 iwstw_schedule_empty_only, 4 queue_size,
+// 5 iwtp_threads_busy_num, 6 pause of the submitter until its accepted tasks so far have finished (no library call, no event).
+// sdt=<task>[:<wait>] (stw): that task's body calls iwstw_shutdown on its own executor (CALL 3 / RET logged by thread 0).
+// wd=<seconds>: watchdog time of this scenario.
 // Two kinds of trace tokens are observations of the harness, not events of the executor (iwtp only):
 //   tid:18:id0:id1:...  content of tp->threads (small thread ids, in list order; 999 = unknown pthread_t) read by the
 //                       thread that holds the mutex, right after its UNLOCK / WAIT event and before the mutex is released
@@ -72,7 +76,7 @@ static int nrules;
 
 typedef struct {
   int id, api, dur, gate;
-  atomic_int exec, disc;
+  atomic_int exec, disc, fin; // fin: the body has returned or the task was reported to the discard callback
   int rc, sched;
   long callst, retst, runst, donest;
 } trec;
@@ -82,6 +86,7 @@ static int ntasks;
 // scenario parameters
 static struct {
   int tp, lim, blk, cb, nsub, nt, dur, wait, trigk, trign, mix, yp, sp, nthreads, ovf;
+  int sdt, sdtwait; // stw: the body of task sdt calls iwstw_shutdown(&stw, sdtwait) on its own executor (-1: none)
   uint64_t seed;
 } P;
 
@@ -96,6 +101,7 @@ static atomic_int badfn, qmax, bmax;
 static atomic_long scen_start;
 static atomic_int scen_active;
 static int scen_no;
+static atomic_int wd_s; // watchdog time of the running scenario (parameter wd=, default WATCHDOG_S)
 
 static uint64_t sm64(uint64_t *s) {
   uint64_t z = (*s += 0x9E3779B97F4A7C15ULL);
@@ -354,22 +360,37 @@ static int task_id_of(const void *arg) {
   return -1;
 }
 
+static int rc_enum(iwrc rc) {
+  if (!rc) return 0;
+  if (rc == IW_ERROR_INVALID_STATE) return 1;
+  if (rc == IW_ERROR_OVERFLOW) return 2;
+  if (rc == IW_ERROR_ASSERTION) return 3;
+  return 9;
+}
+
 static void task_fn(void *arg) {
   trec *t = arg;
   lgw(K_RUN, t->id, 0, 0);
   t->runst = atomic_fetch_add(&stamp, 1);
   atomic_fetch_add(&t->exec, 1);
+  if (!P.tp && t->id == P.sdt) { // iwstw_shutdown from the worker's own thread
+    struct iwstw *h = g_stw;
+    lg(K_CALL, 3, 0, P.sdtwait);
+    iwrc src = iwstw_shutdown(&h, P.sdtwait);
+    lg(K_RET, rc_enum(src), 0, 0);
+  }
   if (t->gate >= 0) wait_gate(t->gate);
   else if (t->dur == 1) { for (volatile int i = 0; i < 2000; ++i); sched_yield(); }
   else if (t->dur == 2) usleep(1200);
   t->donest = atomic_fetch_add(&stamp, 1);
   lgw(K_DONE, t->id, 0, 0);
+  atomic_store(&t->fin, 1);
 }
 
 static void discard_cb(iwstw_task_f fn, void *arg) {
   int id = task_id_of(arg);
   if (fn != task_fn || id < 0) { atomic_fetch_add(&badfn, 1); }
-  if (id >= 0) { lgw(K_DISCARD, id, 0, 0); atomic_fetch_add(&TASKS[id].disc, 1); }
+  if (id >= 0) { lgw(K_DISCARD, id, 0, 0); atomic_fetch_add(&TASKS[id].disc, 1); atomic_store(&TASKS[id].fin, 1); }
 }
 
 #if HOOKED
@@ -382,13 +403,6 @@ static void hook_cb(int kind, const void *obj, intptr_t arg) {
 }
 #endif
 
-static int rc_enum(iwrc rc) {
-  if (!rc) return 0;
-  if (rc == IW_ERROR_INVALID_STATE) return 1;
-  if (rc == IW_ERROR_OVERFLOW) return 2;
-  return 9;
-}
-
 // ---- client threads ------------------------------------------------------------------------------------
 typedef struct { int idx; int first, n; } subarg;
 
@@ -398,6 +412,17 @@ static void *submitter(void *op) {
   my_rng = P.seed * 2654435761ULL + (uint64_t) my_tid * 104729ULL;
   for (int j = 0; j < sa->n; ++j) {
     trec *t = &TASKS[sa->first + j];
+    if (t->api == 6) {
+      // pause (no library call, no event): until every task this submitter got accepted so far has finished (body returned
+      // or reported to the discard callback), i.e. the executor has drained this submitter's work; gives up after 3 s
+      long t0 = now_ms();
+      for (int q = 0; q < j; ++q) {
+        trec *u = &TASKS[sa->first + q];
+        while (u->sched && !atomic_load(&u->fin) && !atomic_load(&shutdown_returned) && now_ms() - t0 < 3000) usleep(50);
+      }
+      t->rc = 0; t->sched = 0;
+      continue;
+    }
     perturb();
     hold_point(K_CALL);
     if (atomic_load(&shutdown_returned)) { t->api = -1; continue; } // a call may not START after shutdown returned
@@ -496,7 +521,7 @@ static void *watchdog(void *op) {
   (void) op;
   for (;;) {
     usleep(200000);
-    if (atomic_load(&scen_active) && time(0) - atomic_load(&scen_start) > WATCHDOG_S) {
+    if (atomic_load(&scen_active) && time(0) - atomic_load(&scen_start) > atomic_load(&wd_s)) {
       emit("HANG");
       _exit(3);
     }
@@ -517,7 +542,8 @@ static void run_scenario(char *line) {
   if (nt < 1) { printf("\n"); fflush(stdout); return; }
   memset(&P, 0, sizeof(P));
   P.tp = !strcmp(tv[0], "tp");
-  P.nsub = 1; P.nt = 1; P.nthreads = 1; P.trigk = 0; P.seed = 1;
+  P.nsub = 1; P.nt = 1; P.nthreads = 1; P.trigk = 0; P.seed = 1; P.sdt = -1;
+  long wd = WATCHDOG_S;
   nrules = 0;
   char *gt = 0, *apis = 0, *durs = 0;
   for (int i = 1; i < nt; ++i) {
@@ -529,6 +555,8 @@ static void run_scenario(char *line) {
     else if (kv(tv[i], "yp", &v)) P.yp = (int) v; else if (kv(tv[i], "sp", &v)) P.sp = (int) v;
     else if (kv(tv[i], "nthr", &v)) P.nthreads = (int) v; else if (kv(tv[i], "ovf", &v)) P.ovf = (int) v;
     else if (kv(tv[i], "seed", &v)) P.seed = (uint64_t) v;
+    else if (kv(tv[i], "wd", &v)) wd = v;
+    else if (!strncmp(tv[i], "sdt=", 4)) sscanf(tv[i] + 4, "%d:%d", &P.sdt, &P.sdtwait);
     else if (!strncmp(tv[i], "trig=", 5)) sscanf(tv[i] + 5, "%d:%d", &P.trigk, &P.trign);
     else if (!strncmp(tv[i], "gt=", 3)) gt = tv[i] + 3;       // gated tasks  id:gate,id:gate
     else if (!strncmp(tv[i], "apis=", 5)) apis = tv[i] + 5;   // explicit api per task (digits), overrides mix
@@ -576,6 +604,7 @@ static void run_scenario(char *line) {
       if (sscanf(r, "%d:%d", &id, &g) == 2 && id >= 0 && id < ntasks && g >= 0 && g < NGATE) TASKS[id].gate = g;
     }
   }
+  atomic_store(&wd_s, (int) (wd < 1 ? 1 : wd > 600 ? 600 : wd));
   atomic_store(&scen_start, (long) time(0));
   atomic_store(&scen_active, 1);
   // start the executor (its own events are not part of the modelled run)
